@@ -6,6 +6,7 @@ package main
 import (
 	"fmt"
 	"go/token"
+	"go/types"
 	"strings"
 
 	"golang.org/x/tools/go/ssa"
@@ -165,15 +166,27 @@ func (p *Program) checkLoop(fn *ssa.Function, l *Loop, ps *progressSets) LoopVer
 			case *ssa.Call:
 				cc := x.Common()
 				n := calleeName(cc)
+				if n == "time.Sleep" || n == "(*time.Timer).Reset" {
+					mark(b, "timed wait "+n, x)
+					continue
+				}
 				if nameIn(n, blockingReadNames...) {
-					mark(b, "blocking read/accept "+n, x)
+					if readFailureLeavesLoop(x, l) {
+						mark(b, "blocking read/accept "+n, x)
+					} else {
+						events = append(events, fmt.Sprintf("block %d: %s, but its error does not end the loop: at end of stream (or on a closed connection) it returns at once, for ever", b.Index, n))
+					}
 					continue
 				}
 				if c := staticCallee(cc); c != nil {
 					if ps.advancing[c] {
 						mark(b, "argument cursor advanced by "+fnName(c), x)
 					} else if ps.blocking[c] {
-						mark(b, "blocking read inside "+fnName(c), x)
+						if readFailureLeavesLoop(x, l) {
+							mark(b, "blocking read inside "+fnName(c), x)
+						} else {
+							events = append(events, fmt.Sprintf("block %d: read inside %s, but its error does not end the loop", b.Index, fnName(c)))
+						}
 					}
 				}
 			case *ssa.Next:
@@ -361,4 +374,108 @@ func (p *Program) paramAlwaysPositive(par *ssa.Parameter) (bool, string) {
 		return false, strings.Join(bad, "; ")
 	}
 	return true, fmt.Sprintf("positive constant at all %d static call sites", sites)
+}
+
+// readFailureLeavesLoop: a read blocks only while the stream is open; once it fails it returns
+// immediately. It is a progress event of loop l only if its error is tested (directly or as the
+// loop-carried copy) and the failing side cannot come back to the loop header.
+func readFailureLeavesLoop(call *ssa.Call, l *Loop) bool {
+	var errV ssa.Value
+	if tup, ok := call.Type().(*types.Tuple); ok {
+		if call.Referrers() != nil {
+			for _, r := range *call.Referrers() {
+				if ex, ok := r.(*ssa.Extract); ok && ex.Index == tup.Len()-1 && isErrorType(ex.Type()) {
+					errV = ex
+				}
+			}
+		}
+		if !isErrorType(tup.At(tup.Len() - 1).Type()) {
+			return true // no error result (Accept-less helper): nothing to test
+		}
+	} else if isErrorType(call.Type()) {
+		errV = call
+	} else {
+		return true
+	}
+	if errV == nil {
+		return false
+	}
+	alias := map[ssa.Value]bool{errV: true}
+	if errV.Referrers() != nil {
+		for _, r := range *errV.Referrers() {
+			if phi, ok := r.(*ssa.Phi); ok {
+				alias[phi] = true
+			}
+		}
+	}
+	tested := false
+	for _, b := range l.sortedBlocks() {
+		if len(b.Instrs) == 0 {
+			continue
+		}
+		iff, ok := b.Instrs[len(b.Instrs)-1].(*ssa.If)
+		if !ok || len(b.Succs) != 2 {
+			continue
+		}
+		for idx := 0; idx < 2; idx++ {
+			isErrEdge := false
+			for _, at := range atomsOf(iff.Cond, idx == 0) {
+				if at.Kind == "nil" && !at.Pos && alias[at.X] {
+					isErrEdge = true
+				}
+			}
+			if !isErrEdge {
+				continue
+			}
+			tested = true
+			s := b.Succs[idx]
+			if !l.Blocks[s] {
+				continue
+			}
+			// stays in the loop: must not reach the header again
+			seen := map[*ssa.BasicBlock]bool{}
+			st := []*ssa.BasicBlock{s}
+			for len(st) > 0 {
+				x := st[len(st)-1]
+				st = st[:len(st)-1]
+				if seen[x] || !l.Blocks[x] {
+					continue
+				}
+				seen[x] = true
+				if x == l.Header {
+					return false
+				}
+				st = append(st, x.Succs...)
+			}
+		}
+	}
+	if tested {
+		return true
+	}
+	// `for n == 1 && err == nil && ...`: the loop condition is a conjunction whose failure
+	// leaves the loop; the error takes part in it when some exit edge carries "err != nil OR ..."
+	// — accepted when the header condition mentions the error and its false side exits
+	for _, b := range l.sortedBlocks() {
+		if len(b.Instrs) == 0 {
+			continue
+		}
+		iff, ok := b.Instrs[len(b.Instrs)-1].(*ssa.If)
+		if !ok || len(b.Succs) != 2 {
+			continue
+		}
+		if bo, ok := iff.Cond.(*ssa.BinOp); ok && (bo.Op == token.EQL || bo.Op == token.NEQ) {
+			for _, pr := range [][2]ssa.Value{{bo.X, bo.Y}, {bo.Y, bo.X}} {
+				if alias[pr[0]] && isNilConst(pr[1]) {
+					errIdx := 1 // err == nil: false side is the error side
+					if bo.Op == token.NEQ {
+						errIdx = 0
+					}
+					if !l.Blocks[b.Succs[errIdx]] {
+						return true
+					}
+				}
+			}
+		}
+	}
+	return false
 }
